@@ -66,7 +66,9 @@ END_WINDOW = 2e-6  # controller's stepper_atol is 1e-6 dt
 # ---------------------------------------------------------------------------------------
 # strategies
 # ---------------------------------------------------------------------------------------
-TRACKER_KINDS = ("data", "callback", "storage", "custom")
+# (the last four: trackers of the package without a callback, recorded by wrapping their `handle`)
+TRACKER_KINDS = ("data", "callback", "storage", "custom", "data", "callback", "custom", "walltime", "print", "consistency",
+                 "maxruntime")
 SMALL_RHO = st.one_of(
     st.integers(1, 6).map(lambda p: [p, 1]),
     st.sampled_from([[3, 2], [5, 2], [7, 2], [4, 3], [5, 3], [7, 3], [5, 4], [7, 4], [9, 4], [6, 5], [12, 5],
